@@ -142,6 +142,8 @@ class Obl:
 
 
 def new_executor(ctx, solver, models, inline, **kw):
+    if not kw.get("allow_uf"):
+        models = list(models) + M.make_combinators()
     ex = Executor(ctx.mir, solver, models, inline, enums=ctx.enums, **kw)
     ex.enum_hook = M.component_enum_hook
     return ex
